@@ -312,11 +312,16 @@ func allCalls(doc *spec.Swagger) []Call {
 		}
 	}
 	ops = append(ops, mp{"GET", "/absent", "absentID"}, mp{"TRACE", "/pets", ""})
+	// lookups by operation id are only meaningful (and order-independent) for ids that are unique in the document
+	idCount := map[string]int{}
+	for _, o := range ops {
+		idCount[o.id]++
+	}
 	for _, o := range ops {
 		for _, m := range []string{"OperationFor", "ParamsFor", "SafeParamsFor", "ConsumesFor", "ProducesFor", "SecurityRequirementsFor", "SecurityDefinitionsFor"} {
 			calls = append(calls, Call{M: m, Args: []string{o.m, o.p}})
 		}
-		if o.id != "" {
+		if o.id != "" && idCount[o.id] == 1 {
 			for _, m := range []string{"OperationForName", "ParametersFor", "SafeParametersFor"} {
 				calls = append(calls, Call{M: m, Args: []string{o.id}})
 			}
